@@ -187,6 +187,8 @@ class Lab:
             resume=resume)
         if isinstance(self.prior, pr.PriorFn):
             kw['n_dim'] = spec['d']
+        if spec.get('tilt'):
+            kw['likelihood_kwargs'] = dict(tilt=spec['tilt'])
         s = Sampler(self.prior, self.problem, **kw)
         self.sampler = s
         self._wrap(s)
@@ -236,6 +238,8 @@ class Lab:
             filepath=f, resume=True)
         if isinstance(self.prior, pr.PriorFn):
             kw['n_dim'] = spec['d']
+        if spec.get('tilt'):
+            kw['likelihood_kwargs'] = dict(tilt=spec['tilt'])
         s = Sampler(self.prior, self.problem, **kw)
         shutil.rmtree(d, ignore_errors=True)
         return s
